@@ -12,6 +12,7 @@ structure DState where
   conn : Conn := Conn.init
   cst : CodecState := .none
   cbuf : Bytes := []
+  acc : Bytes := []
 
 def insertSorted (x : String × String) : List (String × String) → List (String × String)
   | [] => [x]
@@ -66,12 +67,14 @@ def step (d : DState) (line : String) : DState × String :=
     match fromHex hx with
     | some b =>
       let (c', s', out) := feed memOps d.limit d.now d.conn d.store b
-      ({ d with conn := c', store := s' }, s!"out {toHexD out} {if c'.closed then "closed" else "open"}")
+      ({ d with conn := c', store := s', acc := d.acc ++ out }, "sent")
     | none => (d, "bad-op")
   | ["eof"] =>
     let (c', s', out) := eof memOps d.now d.conn d.store
-    ({ d with conn := c', store := s' }, s!"out {toHexD out} closed")
-  | ["conn"] => ({ d with conn := Conn.init }, "ok")
+    ({ d with conn := c', store := s', acc := [] }, s!"out {toHexD (d.acc ++ out)} closed")
+  | ["fin"] =>
+    ({ d with acc := [] }, s!"out {toHexD d.acc} {if d.conn.closed then "closed" else "open"}")
+  | ["conn"] => ({ d with conn := Conn.init, acc := [] }, "ok")
   | ["dec", hx] =>
     match fromHex hx with
     | some b =>
